@@ -599,7 +599,10 @@ func ruleC03R6(c *Ctx) {
 	nf := c.P.Fn(aNewFeeder)
 	okP := false
 	for _, st := range storesToField(nf, fFeedIn) {
-		if p, ok := resolve(st.Val).(*ssa.Parameter); ok && p.Name() == "inputChannel" {
+		if p, ok := resolve(st.Val).(*ssa.Parameter); ok {
+			if _, isChan := p.Type().Underlying().(*types.Chan); !isChan {
+				continue
+			}
 			okP = true
 		}
 	}
@@ -922,7 +925,7 @@ func ruleC03R10(c *Ctx) {
 				}
 				c.check(ok, "C03.R10", fn, construct, s.Pos(), "subtracted only after a successful unlink", "the byte gauge is decreased although the file is still there")
 			default:
-				if why, ok := c03R10Reviewed[name+"|"+m+"|"+arg]; ok {
+				if why, ok := lookupReviewed(c03R10Reviewed, name+"|"+m+"|"+arg); ok {
 					c.assumed("C03.R10", fn, construct, s.Pos(), "reviewed: "+why)
 				} else {
 					c.bad("C03.R10", fn, construct, s.Pos(), "the byte gauge used by the quota test changes without a matching change of the files on disk (not after a successful write/unlink, not a recovered file, not a reviewed entry): the queue directory can outgrow its limit or reject chunks it has room for")
